@@ -585,18 +585,14 @@ Fixpoint stage3_ty (srt: bool) (ce: codec) (T: ty) : bool :=
 Definition nonempty_enc (ce: codec) (T: ty) (v: val) : bool :=
   match encw ce T ifne_opts v with Ok [] => false | _ => true end.
 
-(* the octets of an untagged ANY are one complete TLV with a definite, minimally encoded header *)
+(* the octets of an untagged ANY are one complete TLV with a definite length (in any form, minimal
+   or not), other than the end-of-octets marker *)
 Definition tlv_ok (b: bytes) : bool :=
   match dec_ident b with
   | Some (t, r1) =>
       match dec_len r1 with
       | Some (Some n, r2) =>
-          N.eqb (N.of_nat (length r2)) n &&
-          negb (cls_eqb (tcls t) Univ && N.eqb (tnum t) 0) &&
-          match enc_len n false with
-          | Ok l => bytes_eqb b (enc_tag t false ++ l ++ r2)
-          | Err _ => false
-          end
+          N.eqb (N.of_nat (length r2)) n && negb (cls_eqb (tcls t) Univ && N.eqb (tnum t) 0)
       | _ => false
       end
   | None => false
